@@ -171,6 +171,12 @@ fn validate(src: &str) -> Result<Option<Vec<Seen>>, (String, Value)> {
                     json!({"reason": m.reason, "span": [sp.start, sp.end], "chars": nchars}),
                 ));
             }
+            // what a "line" is, is only unambiguous for LF / CRLF: the renderer also breaks lines
+            // at VT, FF, NEL, LS and PS. Sources containing those are judged on span bounds only.
+            if src.contains(['\u{b}', '\u{c}', '\u{85}', '\u{2028}', '\u{2029}']) {
+                seen.push(s);
+                continue;
+            }
             match &m.location {
                 None => return Err(("error has a span but no location".into(), json!({"reason": m.reason}))),
                 Some(l) => {
@@ -194,7 +200,9 @@ fn validate(src: &str) -> Result<Option<Vec<Seen>>, (String, Value)> {
                         None => return Err(("error has a span but no rendered message".into(), json!({"reason": m.reason}))),
                         Some(d) => {
                             let line = lines.get(es.0).copied().unwrap_or("");
-                            if !line.trim().is_empty() && !d.contains(line.trim_end()) {
+                            // control characters have no rendering: compared without them
+                            let vis = |t: &str| -> String { t.chars().filter(|c| !c.is_control()).collect() };
+                            if !line.trim().is_empty() && !d.contains(line.trim_end()) && !vis(d).contains(vis(line).trim_end()) {
                                 return Err((
                                     "rendered message does not quote the line containing the span".into(),
                                     json!({"reason": m.reason, "line": line, "display": d}),
@@ -317,7 +325,45 @@ pub fn check(c: &Case, known: &Known) -> Outcome {
     out
 }
 
+/// Arbitrary source text (libFuzzer target `err_span`): the per-error validity predicate alone.
+/// With multi-byte text in the source, a failure is the recorded byte-offset finding's unless the
+/// error is a lexer error (their offsets are converted to characters).
+pub fn check_source(src: &str, known: &Known) -> Outcome {
+    let mut out = Outcome::pass();
+    out.key = hash_of(src);
+    match validate(src) {
+        Ok(None) => out.classes.push("compiles".into()),
+        Ok(Some(seen)) => {
+            out.nontrivial = seen.iter().any(|s| s.span.is_some());
+            out.classes.push("fails".into());
+            if seen.iter().any(|s| s.foreign) {
+                let mut o = Outcome::fail(
+                    "error span names a source that is not a file of the source tree",
+                    json!({"source": src, "errors": seen.iter().map(|s| json!({"reason": s.reason, "span": s.span, "foreign": s.foreign})).collect::<Vec<_>>()}),
+                );
+                if known.is_open(F_FOREIGN) {
+                    o.verdict = Verdict::Known(F_FOREIGN.into(), seen[0].reason.chars().take(60).collect());
+                }
+                return o;
+            }
+        }
+        Err((what, _)) if what.starts_with("PANIC") => return Outcome::skip("compiler_panic").class("compiler_panic"),
+        Err((what, mut d)) => {
+            d["source"] = json!(src);
+            let mut o = Outcome::fail(&what, d);
+            if !src.is_ascii() && known.is_open(F_BYTES) {
+                o.verdict = Verdict::Known(F_BYTES.into(), format!("{what} (source contains multi-byte text)"));
+            }
+            return o;
+        }
+    }
+    out
+}
+
 pub fn replay_any(name: &str, case: &Value, known: &Known) -> Option<Outcome> {
+    if name == "fuzz-source" {
+        return Some(check_source(case.get("source")?.as_str()?, known));
+    }
     if name == "project-trees" {
         let c: TreeCase = serde_json::from_value(case.clone()).ok()?;
         return Some(check_tree(&c, known));
@@ -330,6 +376,9 @@ pub fn run(ctx: &Ctx) -> i32 {
     ctx.run_replays(|c, case| replay_any(c, case, &ctx.known));
     ctx.tape_search("fault-injection", ctx.n(30_000, 1_000_000), 400, gen_case, |c| check(c, &ctx.known));
     ctx.tape_search("project-trees", ctx.n(2_000, 40_000), 40, gen_tree_case, |c| check_tree(c, &ctx.known));
+    if !ctx.quick() {
+        ctx.fuzz_campaign("err_span", ctx.fuzz_secs(240), 2048);
+    }
     ctx.finish(
         "valid generated programs + one injected fault of a known class (lexical: unterminated string, stray ^, unterminated quote; syntactic: dangling operator, missing brace/paren, doubled =; resolution: unknown function / column / named argument; type: text to take, number to filter; SQL generation: regex under generic) + padding before the fault (comment line or string literal) in two versions of equal character length, ASCII and multi-byte. Every returned error must have a non-empty reason; a span must lie inside the source in character offsets with start <= end; location must be the (line, column) of the span; the rendered message must quote that line; span and location must be identical for the two paddings. non-trivial = the error has a span and multi-byte text precedes it; distinct = source text",
         &["panics are C12's subject (except the known span-out-of-bounds assertion, which is the same root cause as the recorded finding)", "multi-file projects: one root and one module file, built through SourceTree::new / default()+insert (both orders) / single"],
